@@ -1,19 +1,28 @@
-(* C15 (HISTORY PART ONLY -- PROVISIONAL FILE).
-   "Broadcast chat is replayed in order to later joiners from a history that
-   never exceeds 50 entries nor the configured age, from which operators can
-   remove one message, one user's messages, or everything."
+(* C15: "Every chat or user message a client receives carries as source and
+   username either the true id and username of the member that sent it or
+   nothing, is marked privileged exactly when the sender was an operator at
+   that time, and is delivered to exactly the named destination or, if
+   broadcast, to every member (minus the sender when it asked for no echo); a
+   message claiming another client's id or name is rejected and closes the
+   offending connection.  Broadcast chat is replayed in order to later joiners
+   from a history that never exceeds 50 entries nor the configured age, from
+   which operators can remove one message, one user's messages, or
+   everything."
 
-   This file is provisional: it exists so that the history builder can run
-   `./check C15`; the coordinator assembles the final Properties/C15.v from
-   this part and the message-level part (authenticity, addressing, only
-   broadcast chat is stored) built on the signalling model.
+   PART 1 (group-level history, 14 theorems).  Model: Model/History.v, tied to
+   group/group.go and group/description.go by the `history` correspondence
+   driver and Generated/HistoryConsts.v.  Histories are ARBITRARY lists of
+   operations (add / get / clear in every mode / description change / join)
+   from an empty history, with arbitrary times, ids, sources and configured
+   ages; no well-formedness hypothesis.  Proofs: Proofs/History.v.
 
-   Statements only; every proof is [exact lemma] (Proofs/History.v).  Model:
-   Model/History.v, tied to group/group.go and group/description.go by the
-   `history` correspondence driver and Generated/HistoryConsts.v.
-   Histories are ARBITRARY lists of operations (add / get / clear in every
-   mode / description change / join) from an empty history, with arbitrary
-   times, ids, sources and configured ages; no well-formedness hypothesis. *)
+   PART 2 (message level, below).  Model: Model/Signal.v (handleClientMessage,
+   handleAction, the end of a connection), tied to rtpconn/webclient.go by the
+   `chat` and `sig` correspondence drivers and Generated/Guards.v.  Statements
+   are over ALL operation sequences of the scheduler model ([reach ops w]).
+   Proofs: Proofs/SignalChat*.v.
+
+   Statements only; every proof is [exact lemma]. *)
 From Coq Require Import ZArith List Bool Sorted.
 From Galene Require Import Generated.HistoryConsts Model.History Proofs.History.
 Import ListNotations.
@@ -201,3 +210,378 @@ Example C15_history_example_age_wrap :
   max_history_age 0 = defaultMaxHistoryAge /\
   max_history_age 3600 = hour.
 Proof. vm_compute. repeat split; reflexivity. Qed.
+
+
+(* ====================================================================== *)
+(* PART 2: message level (Model/Signal.v)                                  *)
+(* ====================================================================== *)
+From Coq Require Import String Arith.
+From Galene Require Import Generated.Guards Model.Signal Proofs.SignalFrame
+  Proofs.SignalChatFrame Proofs.SignalChatInv Proofs.SignalChat Proofs.SignalChatMain
+  Proofs.SignalChatHist Proofs.SignalChatEx.
+Module H := Galene.Model.History.
+Open Scope string_scope.
+Open Scope list_scope.
+Open Scope nat_scope.
+
+(* Vocabulary (definitions in Proofs/SignalChat*.v):
+     reach ops w        run_ops empty_world ops = Some w
+     out_of w i         the outbox of connection i; hist_of w g the history of group g
+     sent_in ops P      ops = ops1 ++ OpMsg h m :: ops2, the prefix ops1 reaches w1, connection
+                        h is open there with record c, and P w1 h c m
+     authentic_fields c m   (m.source = "" or c's id) and (m.username absent or c's username)
+     chat_out c m       the forwarded message: type, kind, source, dest, username, value of m
+                        verbatim, id = m's or fresh, privileged = c holds op
+     forwarded x        x = chat_out c m for a chat/usermessage m with authentic fields of a
+                        member c holding the permission chat_perm m
+     stored g e         e = chat_entry m for a BROADCAST message m of type chat with authentic
+                        fields of a member c of g holding the permission
+     server_msg x       x is one of the server's own messages (enumerated in
+                        C15_server_messages_privileged)
+     delivers w w' L    w' is w with L i appended to the outbox of every connection i *)
+
+(* ---- authenticity ---- *)
+
+Theorem C15_authentic : forall ops w i x,
+  reach ops w -> In x (out_of w i) -> is_chatlike x = true ->
+  server_msg x = true \/
+  sent_in ops (forwarded x) \/
+  (exists g e, sent_in ops (stored g e) /\ x = out_chathistory e).
+Proof. exact authentic. Qed.
+Print Assumptions C15_authentic.
+
+(* the reading of the property text *)
+Theorem C15_authentic_source_username : forall ops w i x,
+  reach ops w -> In x (out_of w i) -> is_chatlike x = true -> server_msg x = false ->
+  exists ops1 h m ops2 w1 c,
+    ops = ops1 ++ OpMsg h m :: ops2 /\ reach ops1 w1 /\
+    get_client w1 h = Some c /\ c_closed c = false /\ c_group c <> None /\
+    (o_source x = "" \/ o_source x = c_id c) /\
+    (o_user x = None \/ o_user x = Some (c_username c)) /\
+    o_kind x = m_kind m /\ o_value x = value_text (m_value m).
+Proof. exact authentic_source_username. Qed.
+Print Assumptions C15_authentic_source_username.
+
+(* ---- the privileged flag ---- *)
+
+Theorem C15_privileged_iff_op : forall ops w i x,
+  reach ops w -> In x (out_of w i) ->
+  (o_type x = "chat" \/ o_type x = "usermessage") -> server_msg x = false ->
+  exists ops1 h m ops2 w1 c,
+    ops = ops1 ++ OpMsg h m :: ops2 /\ reach ops1 w1 /\
+    get_client w1 h = Some c /\ c_closed c = false /\
+    x = chat_out c m /\ o_priv x = mem "op" (c_perms c).
+Proof. exact privileged_iff_op. Qed.
+Print Assumptions C15_privileged_iff_op.
+
+(* the server's own messages: no source; its usermessages (error, kicked,
+   warning, userinfo, token, tokenlist, clearchat) are privileged by
+   construction; its only chat message (the subgroup listing sent to the
+   operator who asked, username "Server") is not *)
+Theorem C15_server_messages_privileged : forall x, server_msg x = true ->
+  o_source x = "" /\
+  ((o_type x = "usermessage" /\ o_priv x = true /\
+    In (o_kind x) ["error"; "kicked"; "warning"; "userinfo"; "token"; "tokenlist"; "clearchat"]) \/
+   (o_type x = "chat" /\ o_priv x = false /\ o_user x = Some "Server")).
+Proof. exact server_privileged. Qed.
+Print Assumptions C15_server_messages_privileged.
+
+(* REFUTED for replayed messages: the operator's broadcast is privileged when
+   delivered live and not privileged when replayed to a later joiner (the
+   stored entry has no such field); witness replayed on the implementation by
+   the `chat` driver (corpus history replay-not-privileged) *)
+Theorem C15_privileged_replay_refuted :
+  exists ops w live e,
+    reach ops w /\
+    sent_in ops (stored "g" e) /\
+    sent_in ops (forwarded live) /\
+    o_id live = h_id e /\ o_source live = h_source e /\ o_value live = h_value e /\
+    o_priv live = true /\
+    In (out_chathistory e) (out_of w 4) /\ o_priv (out_chathistory e) = false.
+Proof. exact privileged_replay_refuted. Qed.
+Print Assumptions C15_privileged_replay_refuted.
+
+(* ---- addressing ---- *)
+
+Theorem C15_addressing : forall ops w h c g m,
+  reach ops w -> get_client w h = Some c -> c_closed c = false ->
+  chat_type m -> authentic_fields c m ->
+  c_group c = Some g -> mem (chat_perm m) (c_perms c) = true ->
+  exists w', Signal.step w (OpMsg h m) = Running w' (RAuth Passed ENone) /\
+    delivers w w' (chat_targets w h c g m) /\
+    (forall g', hist_of w' g' =
+       if stores m && String.eqb g' g then hist_add (hist_of w g') (chat_entry m) else hist_of w g') /\
+    (forall g', members w' g' = members w g').
+Proof. exact addressing. Qed.
+Print Assumptions C15_addressing.
+
+(* broadcast: every connection whose group is the sender's, minus the sender
+   iff noecho; nobody else *)
+Theorem C15_addressing_broadcast : forall w h c g m i, m_dest m = "" ->
+  chat_targets w h c g m i =
+  if member_of w i g && negb (m_noecho m && Nat.eqb i h) then [chat_out c m] else [].
+Proof. exact targets_broadcast. Qed.
+Print Assumptions C15_addressing_broadcast.
+
+Theorem C15_member_of : forall w i g,
+  member_of w i g = true <-> exists ci, get_client w i = Some ci /\ c_group ci = Some g.
+Proof. exact member_of_spec. Qed.
+Print Assumptions C15_member_of.
+
+(* directed: THE member of the sender's group with that id and nobody else,
+   or "user unknown" to the sender alone when the sender's group has no such
+   member (a member of another group is not found) *)
+Theorem C15_addressing_directed : forall ops w h c g m,
+  reach ops w -> m_dest m <> "" ->
+  (exists j cj, get_client w j = Some cj /\ c_group cj = Some g /\ c_id cj = m_dest m /\
+     (forall j' cj', get_client w j' = Some cj' -> c_group cj' = Some g ->
+                     c_id cj' = m_dest m -> j' = j) /\
+     forall i, chat_targets w h c g m i = if Nat.eqb i j then [chat_out c m] else []) \/
+  ((forall j cj, get_client w j = Some cj -> c_group cj = Some g -> c_id cj <> m_dest m) /\
+   forall i, chat_targets w h c g m i =
+             if Nat.eqb i h then [out_error (c_id c) "user unknown"] else []).
+Proof. exact targets_directed. Qed.
+Print Assumptions C15_addressing_directed.
+
+(* ---- spoofing ---- *)
+
+Theorem C15_spoof_closes : forall ops w h c m,
+  reach ops w -> get_client w h = Some c -> c_closed c = false ->
+  ((m_source m <> "" /\ m_source m <> c_id c) \/
+   (m_type m <> "join" /\ exists u, m_username m = Some u /\ u <> c_username c)) ->
+  exists s, (s = "spoofed client id" \/ s = "spoofed username") /\
+  let w' := error_close w h (EProto s) in
+  Signal.step w (OpMsg h m) = Running w' (RAuth Invalid (EProto s)) /\
+  (exists c', get_client w' h = Some c' /\ c_closed c' = true /\ c_group c' = None /\
+              c_out c' = c_out c ++ [out_error (c_id c) s; close_msg "protocol"]) /\
+  (forall i, i <> h -> out_of w' i = out_of w i) /\
+  (forall g, hist_of w' g = hist_of w g) /\
+  (forall g, ~ In h (members w' g)) /\
+  (forall m', Signal.step w' (OpMsg h m') = Running w' RDead).
+Proof. exact spoof_closes_reach. Qed.
+Print Assumptions C15_spoof_closes.
+
+(* ---- permissions ---- *)
+
+Theorem C15_needs_message : forall ops w h c m,
+  reach ops w -> get_client w h = Some c -> c_closed c = false ->
+  chat_type m -> authentic_fields c m ->
+  (c_group c = None \/ mem (chat_perm m) (c_perms c) = false) ->
+  exists v a, (c_group c = None /\ v = "join a group first" /\ a = JoinFirst \/
+               c_group c <> None /\ v = "not authorised" /\ a = NotAuth) /\
+  let w' := send_error w h c v in
+  Signal.step w (OpMsg h m) = Running w' (RAuth a ENone) /\
+  delivers w w' (fun i => if Nat.eqb i h then [out_error (c_id c) v] else []) /\
+  w_groups w' = w_groups w.
+Proof. exact needs_message. Qed.
+Print Assumptions C15_needs_message.
+
+(* chat_perm is what the generated guard table of handleClientMessage says *)
+Theorem C15_permission_table : forall c m, chat_type m ->
+  has_perms c (m_type m) (m_kind m) =
+  mem (if String.eqb (m_type m) "chat" && String.eqb (m_kind m) "caption"
+       then "caption" else "message") (c_perms c).
+Proof. exact has_perms_chat_type. Qed.
+Print Assumptions C15_permission_table.
+
+(* ---- what is stored ---- *)
+
+Theorem C15_history_only_broadcast_chat : forall ops w g e,
+  reach ops w -> In e (hist_of w g) -> sent_in ops (stored g e).
+Proof. exact history_only_broadcast_chat. Qed.
+Print Assumptions C15_history_only_broadcast_chat.
+
+(* every operation leaves every history as it was, or appends (through
+   AddToChatHistory) the broadcast chat it just read, or applies
+   ClearChatHistory *)
+Theorem C15_history_steps : forall ops w o w' r,
+  reach ops w -> Signal.step w o = Running w' r -> hist_step (StepH w o) w w'.
+Proof. exact history_steps. Qed.
+Print Assumptions C15_history_steps.
+
+Theorem C15_stores_iff : forall m, stores m = true <-> m_type m = "chat" /\ m_dest m = "".
+Proof. exact stores_spec. Qed.
+Print Assumptions C15_stores_iff.
+
+Theorem C15_stored_id : forall m, stores m = true ->
+  h_id (chat_entry m) = if Signal.is_empty (m_id m) then "?" else m_id m.
+Proof. exact chat_entry_id. Qed.
+Print Assumptions C15_stored_id.
+
+(* ---- clearchat ---- *)
+
+Theorem C15_clearchat : forall ops w h c g m,
+  reach ops w -> get_client w h = Some c -> c_closed c = false ->
+  m_type m = "groupaction" -> m_kind m = "clearchat" -> authentic_fields c m ->
+  c_group c = Some g ->
+  (mem "op" (c_perms c) = false ->
+     let w' := send_error w h c "not authorised" in
+     Signal.step w (OpMsg h m) = Running w' (RAuth NotAuth ENone) /\
+     delivers w w' (fun i => if Nat.eqb i h then [out_error (c_id c) "not authorised"] else []) /\
+     w_groups w' = w_groups w) /\
+  (mem "op" (c_perms c) = true ->
+     match clearchat_args (m_value m) with
+     | None =>
+         let w' := send_error w h c "bad value in clearchat" in
+         Signal.step w (OpMsg h m) = Running w' (RAuth Passed ENone) /\
+         delivers w w' (fun i => if Nat.eqb i h then [out_error (c_id c) "bad value in clearchat"] else []) /\
+         w_groups w' = w_groups w
+     | Some (id, uid) =>
+         exists w', Signal.step w (OpMsg h m) = Running w' (RAuth Passed ENone) /\
+           (forall g', hist_of w' g' =
+              if String.eqb g' g then hist_clear (hist_of w g') id uid else hist_of w g') /\
+           (forall g', members w' g' = members w g') /\
+           delivers w w' (fun i => if member_of w i g then [clearchat_msg (m_value m)] else [])
+     end).
+Proof. exact clearchat. Qed.
+Print Assumptions C15_clearchat.
+
+Theorem C15_clearchat_args :
+  clearchat_args VNone = Some ("", "") /\
+  (forall l, clearchat_args (VMap l) =
+     if Signal.is_empty (map_get l "userId") && negb (Signal.is_empty (map_get l "id")) then None
+     else Some (map_get l "id", map_get l "userId")) /\
+  (forall s, clearchat_args (VStr s) = None) /\ clearchat_args VOther = None /\
+  (forall t, clearchat_args (VTok t) = None).
+Proof. exact clearchat_args_spec. Qed.
+Print Assumptions C15_clearchat_args.
+
+(* ---- replay on join ---- *)
+
+Theorem C15_join_queues_replay : forall ops w h c m w' r c' g,
+  reach ops w -> get_client w h = Some c -> c_closed c = false -> c_group c = None ->
+  m_type m = "join" ->
+  Signal.step w (OpMsg h m) = Running w' r -> get_client w' h = Some c' -> c_group c' = Some g ->
+  g = m_group m /\
+  exists rest, queue_of w' h = queue_of w h ++ AJoined g "join" :: rest /\ Forall is_push rest.
+Proof. exact join_queues_replay. Qed.
+Print Assumptions C15_join_queues_replay.
+
+Theorem C15_replay_on_join : forall w h c g gr,
+  g <> "" -> find_group w g = Some gr ->
+  exists w', handle_action w h c (AJoined g "join") = Signal.Ok (mkRes w' ENone Passed) /\
+    delivers w w' (fun i => if Nat.eqb i h
+       then out_joined "join" g (c_username c) (c_perms c) "" ""
+                       (match g_locked gr with Some _ => true | None => false end)
+            :: map out_chathistory (hist_of w g)
+       else []) /\
+    w_groups w' = w_groups w.
+Proof. exact replay_on_join. Qed.
+Print Assumptions C15_replay_on_join.
+
+Theorem C15_chathistory_fields : forall e,
+  let x := out_chathistory e in
+  o_type x = "chathistory" /\ o_id x = h_id e /\ o_source x = h_source e /\
+  o_user x = h_user e /\ o_kind x = h_kind e /\ o_value x = h_value e /\
+  o_dest x = "" /\ o_priv x = false.
+Proof. exact out_chathistory_fields. Qed.
+Print Assumptions C15_chathistory_fields.
+
+(* ---- the one server message that carries a member's id and name ---- *)
+
+(* a kick queues the kicker's claimed source and username, which passed the
+   same check, at the target; the `kicked` message copies them *)
+Theorem C15_kick_fields : forall w h c m g t,
+  m_type m = "useraction" -> m_kind m = "kick" ->
+  spoof_source c m = false -> spoof_user c m = false ->
+  c_group c = Some g -> mem "op" (c_perms c) = true ->
+  get_member w g (m_dest m) = Some t ->
+  handle_client_message w h c m =
+    ok (enq w t (AKick (m_source m) (m_username m)
+                       (match m_value m with VStr s => s | _ => "" end))) /\
+  authentic_fields c m.
+Proof. exact kick_fields. Qed.
+Print Assumptions C15_kick_fields.
+
+Theorem C15_kicked_message : forall c id user message,
+  err_msgs c (EKick id user message) =
+  [mkOut "usermessage" "kicked" id "" (c_id c) user true []
+         (if Signal.is_empty message then "you have been kicked out" else message) "" "" false].
+Proof. exact kicked_message. Qed.
+Print Assumptions C15_kicked_message.
+
+(* ---- the two history models agree; the theorems of PART 1 transfer ---- *)
+
+Theorem C15_hist_add_agrees : forall hs Hs e E, hrel hs Hs -> rel e E ->
+  exists Hs', H.add_to_history Hs E = H.Ok Hs' /\ hrel (hist_add hs e) Hs'.
+Proof. exact hist_add_agrees. Qed.
+Print Assumptions C15_hist_add_agrees.
+
+Theorem C15_hist_clear_agrees : forall hs Hs id uid, hrel hs Hs ->
+  hrel (hist_clear hs id uid) (H.clear_history (enc id) (enc uid) Hs).
+Proof. exact hist_clear_agrees. Qed.
+Print Assumptions C15_hist_clear_agrees.
+
+(* the history of every group in every reachable state of the signalling
+   model is the history of a run of the History state machine *)
+Theorem C15_signal_history_refines : forall ops w, reach ops w -> forall g n,
+  exists hops, Forall add_or_clear hops /\
+               hrel (hist_of w g) (H.st_hist (H.run (H.init n) hops)).
+Proof. exact hist_refines. Qed.
+Print Assumptions C15_signal_history_refines.
+
+Theorem C15_signal_history_bound : forall ops w g, reach ops w ->
+  (List.length (hist_of w g) <= 50)%nat.
+Proof. exact signal_history_bound. Qed.
+Print Assumptions C15_signal_history_bound.
+
+(* ---- the membership invariant behind "exactly the members" ---- *)
+
+Theorem C15_membership_invariant : forall ops w, reach ops w -> MInv w.
+Proof. exact reach_minv. Qed.
+Print Assumptions C15_membership_invariant.
+
+(* ---- non-vacuity: the hypotheses hold on a concrete reachable state and
+   the conclusions are what one expects (computed) ---- *)
+
+Example C15_example_hypotheses : exists w ca cb cm,
+  reach ex_setup w /\
+  get_client w 0 = Some ca /\ get_client w 1 = Some cb /\ get_client w 3 = Some cm /\
+  c_closed ca = false /\ c_group ca = Some "g" /\ c_group cb = Some "g" /\ c_group cm = Some "g" /\
+  mem "op" (c_perms ca) = true /\ mem "op" (c_perms cb) = false /\
+  mem "message" (c_perms cb) = true /\ mem "message" (c_perms cm) = false /\
+  member_of w 2 "g" = false /\ member_of w 2 "k" = true /\
+  authentic_fields ca (ex_chat "chat" "" "i1" "a" "" (Some "oper") "hello" false) /\
+  spoofed cb (ex_chat "chat" "" "i1" "a" "" None "fake" false) /\
+  spoofed cb (ex_chat "chat" "" "s" "" "" (Some "oper") "fake" false).
+Proof. exact ex_hypotheses. Qed.
+
+Example C15_example_broadcast :
+  let ops := ex_setup ++ [OpMsg 0 (ex_chat "chat" "" "i1" "a" "" (Some "oper") "hello" false)] in
+  let x := ("chat", "", "i1", "a", "", Some "oper", true, "hello") in
+  outs ops = [[x]; [x]; []; [x]] /\
+  hists ops = ([mkChat "i1" "a" (Some "oper") "" "hello"], []).
+Proof. exact ex_broadcast. Qed.
+
+Example C15_example_directed :
+  let ops := ex_setup ++
+    [OpMsg 0 (ex_chat "chat" "" "d1" "a" "b" None "psst" false);
+     OpMsg 0 (ex_chat "usermessage" "note" "" "" "z" None "x" false);
+     OpMsg 0 (ex_chat "usermessage" "note" "" "" "" None "all" false)] in
+  let n := ("usermessage", "note", "", "", "", None, true, "all") in
+  outs ops =
+    [[("usermessage", "error", "", "", "a", None, true, "user unknown"); n];
+     [("chat", "", "d1", "a", "b", None, true, "psst"); n]; []; [n]] /\
+  hists ops = ([], []).
+Proof. exact ex_directed. Qed.
+
+Example C15_example_clear_and_replay :
+  let cc := ("usermessage", "clearchat", "", "", "", None, true, "?") in
+  let ud := ("user", "add", "d", "", "", Some "user", false, "") in
+  outs ex_hist_ops =
+    [[cc; ud]; [cc; ud]; []; [cc; ud];
+     [("joined", "join", "", "", "", Some "user", false, "");
+      ("chathistory", "", "i2", "a", "", Some "oper", false, "two");
+      ("chathistory", "", "i1", "b", "", None, false, "three");
+      ud; ("user", "add", "a", "", "", Some "oper", false, "");
+      ("user", "add", "b", "", "", Some "user", false, "");
+      ("user", "add", "m", "", "", Some "mute", false, "")]] /\
+  hists ex_hist_ops =
+    ([mkChat "i2" "a" (Some "oper") "" "two"; mkChat "i1" "b" None "" "three"], []).
+Proof. exact ex_clear_and_replay. Qed.
+
+Example C15_example_eviction :
+  let ops := ex_setup ++
+    map (fun n => OpMsg 1 (ex_chat "chat" "" (tokname n) "b" "" None "x" false)) (seq 0 53) in
+  List.length (fst (hists ops)) = 50 /\ map h_id (firstn 2 (fst (hists ops))) = ["T003"; "T004"].
+Proof. exact ex_eviction. Qed.
